@@ -67,7 +67,7 @@ def run_variant(repo: str, variant: dict) -> Tuple[str, bool, str]:
     except (LookupError, SyntaxError) as exc:
         return variant['id'], False, f'STALE/INVALID: {exc}'
     try:
-        env = dict(os.environ, DZNVERIF_NO_EVIDENCE='1', DZNVERIF_REPO=base)
+        env = dict(os.environ, DZNVERIF_NO_EVIDENCE='1', DZNVERIF_NO_SELFVALIDATION='1', DZNVERIF_REPO=base)
         props = variant['prop'] if isinstance(variant['prop'], list) else [variant['prop']]
         msgs = []
         ok_all = True
@@ -117,3 +117,99 @@ def run_selftest(props: List[str], repo: str, jobs: int, seed: int, quiet: bool 
     print(f'selftest: {len(cat)} variants ({n_fault} seeded faults, {len(cat) - n_fault} behaviour-preserving), '
           f'{bad} failed')
     return 2 if bad else 0
+
+
+# ------------------------------------------------------------------------------------------------------------------
+# seeded changes written by independent sub-agents (kept under /verif/seeded/<id>/): patch.diff + meta.json
+# ------------------------------------------------------------------------------------------------------------------
+def load_seeded() -> List[dict]:
+    import json
+    out = []
+    root = os.path.join(VERIF_ROOT, 'seeded')
+    if not os.path.isdir(root):
+        return out
+    for d in sorted(os.listdir(root)):
+        meta = os.path.join(root, d, 'meta.json')
+        patch = os.path.join(root, d, 'patch.diff')
+        if os.path.exists(meta) and os.path.exists(patch):
+            with open(meta) as fh:
+                m = json.load(fh)
+            m['dir'] = os.path.join(root, d)
+            m['patch'] = patch
+            m.setdefault('id', d)
+            out.append(m)
+    return out
+
+
+def seeded_expectation(m: dict, prop: str) -> str:
+    """'report' | 'silent' | 'any' - what the check of `prop` must do on this stored change."""
+    if any(w['property'] == prop for w in (m.get('caught_by') or [])):
+        return 'report'
+    if any(w['property'] == prop for w in (m.get('imprecise') or [])):
+        return 'any'
+    return 'silent'
+
+
+def run_seeded(repo: str, m: dict, props: List[str]) -> List[Tuple[str, str, str, str]]:
+    """-> [(id, property, 'ok' | 'missed' | 'false-alarm' | 'stale', detail)].  The patch is applied to a scratch copy of src/."""
+    base = tempfile.mkdtemp(prefix='dznverif-seeded-')
+    out = []
+    try:
+        shutil.copytree(os.path.join(repo, 'src'), os.path.join(base, 'src'),
+                        ignore=shutil.ignore_patterns('__pycache__', '*.pyc'))
+        ap = subprocess.run(['git', 'apply', '--whitespace=nowarn', m['patch']], cwd=base, capture_output=True, text=True)
+        if ap.returncode != 0:
+            return [(m['id'], p_, 'stale', ap.stderr.strip()[:200]) for p_ in props]
+        env = dict(os.environ, DZNVERIF_NO_EVIDENCE='1', DZNVERIF_NO_SELFVALIDATION='1', DZNVERIF_REPO=base)
+        for prop in props:
+            want = seeded_expectation(m, prop)
+            if want == 'any':
+                continue
+            w = next((x for x in (m.get('caught_by') or []) if x['property'] == prop), {})
+            proc = subprocess.run([sys.executable, '-m', 'dznverif', 'check', prop, '--repo', base,
+                                   '--tier', w.get('tier', 'quick')],
+                                  cwd=VERIF_ROOT, env=env, capture_output=True, text=True, timeout=600)
+            rules = set(re.findall(r'^\s+rule (\S+) @', proc.stdout, flags=re.M))
+            detail = f'exit={proc.returncode} rules={sorted(rules)}'
+            if want == 'report':
+                ok = proc.returncode == 1 and (not w.get('rule') or w['rule'] in rules)
+                out.append((m['id'], prop, 'ok' if ok else 'missed', detail))
+            else:
+                out.append((m['id'], prop, 'ok' if proc.returncode == 0 else 'false-alarm', detail))
+        return out
+    finally:
+        shutil.rmtree(base, ignore_errors=True)
+
+
+def validate_for(prop: str, repo: str, jobs: int = 16) -> Dict[str, object]:
+    """Checker self-validation used by the thorough tier: every catalogue variant and every stored seeded change that
+    names this property is replayed on a scratch copy of the CURRENT tree.  Stale entries (the text / patch no longer
+    applies because the tree moved on) are skipped and counted; a non-stale entry that is not judged as recorded is a
+    defect of the checker and is returned in `misbehaved`."""
+    cat = [v for v in load_catalogue()
+           if prop in (v['prop'] if isinstance(v['prop'], list) else [v['prop']])]
+    res = {'variants': len(cat), 'seeded_faults_reported': 0, 'behaviour_preserving_silent': 0, 'stale_skipped': 0,
+           'agent_changes_replayed': 0, 'agent_changes_reported': 0, 'agent_changes_silent': 0, 'misbehaved': []}
+    with cf.ThreadPoolExecutor(max_workers=jobs) as ex:
+        for v, (vid, ok, msg) in zip(cat, ex.map(lambda v: run_variant(repo, dict(v, prop=prop)), cat)):
+            if msg.startswith('STALE/INVALID'):
+                res['stale_skipped'] += 1
+            elif ok:
+                res['seeded_faults_reported' if v['expect'] == 'violation' else 'behaviour_preserving_silent'] += 1
+            else:
+                res['misbehaved'].append(f'{vid}: {msg}'[:300])
+        seeded = load_seeded()
+        for m, results in zip(seeded, ex.map(lambda m: run_seeded(repo, m, [prop]), seeded)):
+            for mid, _p, verdict, detail in results:
+                if verdict == 'stale':
+                    res['stale_skipped'] += 1
+                    continue
+                res['agent_changes_replayed'] += 1
+                if verdict == 'ok':
+                    if seeded_expectation(m, prop) == 'report':
+                        res['agent_changes_reported'] += 1
+                    else:
+                        res['agent_changes_silent'] += 1
+                else:
+                    res['misbehaved'].append(f'seeded/{mid}: {verdict} {detail}'[:300])
+    return res
